@@ -5,26 +5,26 @@ from . import contract
 ALL = ['C01', 'C02', 'C03', 'C05', 'C06']
 TOP = 'ctx.states.state_stack[-1]'
 OTOP = 'old_ctx.states.state_stack[-1]'
-OW = 'old_ctx.world'
 
 DEPTH = 'len(ctx.states.state_stack) == len(old_ctx.states.state_stack)'
 BELOW = 'ctx.states.state_stack[:-1] == old_ctx.states.state_stack[:-1]'
 SAME = 'ctx.states.state_stack == old_ctx.states.state_stack'
+GROW = 'len(ctx.states.state_stack) >= len(old_ctx.states.state_stack)'
 
 
 def register(reg):
     contract(
         reg, 'PARSE', ALL, {'f': 'func:PARSE', 'ctx': 'Ctx'}, ret='Val', generic=True,
         requires=['len(ctx.states.state_stack) >= 1'],
-        modifies=['ctx.states.state_stack', 'ctx.world'],
-        ensures=[f'ctx.states.state_stack == old_ctx.states.state_stack[:-1] + [out_frame(f, {OTOP}, {OW})]',
-                 f'out_ok(f, {OTOP}, {OW})', f'result == out_ret(f, {OTOP}, {OW})',
+        modifies=['ctx.states.state_stack'],
+        ensures=[f'ctx.states.state_stack == old_ctx.states.state_stack[:-1] + [out_frame(f, {OTOP})]',
+                 f'out_ok(f, {OTOP})', f'result == out_ret(f, {OTOP})',
                  f'spec_same_text({OTOP}, {TOP})',
-                 f'{TOP}.cutseen == ({OTOP}.cutseen or out_cut(f, {OTOP}, {OW}))'],
-        raises={'FailedParse': [f'ctx.states.state_stack == old_ctx.states.state_stack[:-1] + [out_fail_frame(f, {OTOP}, {OW})]',
-                                f'not out_ok(f, {OTOP}, {OW})', f'spec_same_text({OTOP}, {TOP})',
-                                f'{TOP}.cutseen == ({OTOP}.cutseen or out_cut(f, {OTOP}, {OW}))']},
-        propagates=['other'],
+                 f'{TOP}.cutseen == ({OTOP}.cutseen or out_cut(f, {OTOP}))'],
+        raises={'FailedParse': [f'ctx.states.state_stack == old_ctx.states.state_stack[:-1] + [out_fail_frame(f, {OTOP})]',
+                                f'not out_ok(f, {OTOP})', f'spec_same_text({OTOP}, {TOP})',
+                                f'{TOP}.cutseen == ({OTOP}.cutseen or out_cut(f, {OTOP}))']},
+        propagates=[GROW],
         note='generic contract of a parse function: depth kept, frames below the top untouched, outcome a function '
              'of (function, top frame, world); on failure only the cut flag of the top frame is meaningful')
 
@@ -40,12 +40,90 @@ def register(reg):
         reg, f'{Sx}:Optional._parse', ALL, {'self': 'opaque:Model', 'ctx': 'Ctx'}, ret='Val',
         requires=['len(ctx.states.state_stack) >= 1', f'spec_same_text({TOP}, {TOP})'],
         ensures=[
-            ('property', f'implies(out_ok(self.exp, {BODY}, {OW}), '
-                         f'ctx.states.state_stack == old_ctx.states.state_stack[:-1] + [spec_merged({OTOP}, out_frame(self.exp, {BODY}, {OW}))] '
-                         f'and result == out_ret(self.exp, {BODY}, {OW}))'),
-            ('property', f'implies(not out_ok(self.exp, {BODY}, {OW}), '
-                         f'not out_cut(self.exp, {BODY}, {OW}) and {SAME} and result is None)'),
+            ('property', f'implies(out_ok(self.exp, {BODY}), '
+                         f'ctx.states.state_stack == old_ctx.states.state_stack[:-1] + [spec_merged({OTOP}, out_frame(self.exp, {BODY}))] '
+                         f'and result == out_ret(self.exp, {BODY}))'),
+            ('property', f'implies(not out_ok(self.exp, {BODY}), '
+                         f'not out_cut(self.exp, {BODY}) and {SAME} and result is None)'),
         ],
-        raises={'FailedParse': [('not out_ok(self.exp, %s, %s)' % (BODY, OW)),
-                                ('out_cut(self.exp, %s, %s)' % (BODY, OW)), SAME]},
-        propagates=['other'])
+        raises={'FailedParse': [('not out_ok(self.exp, %s)' % BODY),
+                                ('out_cut(self.exp, %s)' % BODY), SAME]},
+        propagates=[GROW])
+
+
+    # ------------------------------------------------------------------ transparent / lookahead nodes
+    OSTK = 'old_ctx.states.state_stack'
+    STK = 'ctx.states.state_stack'
+    REQ = ['len(ctx.states.state_stack) >= 1', f'spec_same_text({TOP}, {TOP})']
+    FRESH = f'spec_fresh({OTOP})'
+
+    def same_as(e, frame=OTOP):
+        """the node behaves exactly as parse function `e` applied to the caller's frame"""
+        return dict(
+            ensures=[('property', f'out_ok({e}, {frame})'),
+                     ('property', f'{STK} == {OSTK}[:-1] + [out_frame({e}, {frame})]'),
+                     ('property', f'result == out_ret({e}, {frame})')],
+            raises={'FailedParse': [f'not out_ok({e}, {frame})', f'{STK} == {OSTK}[:-1] + [out_fail_frame({e}, {frame})]']},
+            propagates=[GROW])
+
+    contract(reg, f'{Sx}:Group._parse', ALL, {'self': 'opaque:Model', 'ctx': 'Ctx'}, ret='Val', requires=REQ,
+             **same_as('self.exp'))
+    contract(reg, f'{M}:Box._parse', ALL, {'self': 'opaque:Model', 'ctx': 'Ctx'}, ret='Val', requires=REQ,
+             **same_as('self.exp'))
+    contract(
+        reg, f'{Sx}:Lookahead._parse', ALL, {'self': 'opaque:Model', 'ctx': 'Ctx'}, ret='Val', requires=REQ,
+        ensures=[('property', f'out_ok(self.exp, {FRESH})'), ('property', SAME),
+                 ('property', f'result == out_ret(self.exp, {FRESH})')],
+        raises={'FailedParse': [f'not out_ok(self.exp, {FRESH})', SAME]}, propagates=[GROW])
+    contract(
+        reg, f'{Sx}:NegativeLookahead._parse', ALL, {'self': 'opaque:Model', 'ctx': 'Ctx'}, ret='Val', requires=REQ,
+        ensures=[('property', f'not out_ok(self.exp, {FRESH})'), ('property', SAME), ('property', 'result is None')],
+        raises={'FailedParse': [f'out_ok(self.exp, {FRESH})', SAME]}, propagates=[GROW])
+    contract(
+        reg, f'{Sx}:SkipGroup._parse', ALL, {'self': 'opaque:Model', 'ctx': 'Ctx'}, ret='Val', requires=REQ,
+        ensures=[('property', f'out_ok(self.exp, {FRESH})'),
+                 ('property', f'{STK} == {OSTK}[:-1] + [spec_at({OTOP}, out_frame(self.exp, {FRESH}).cursor.pos)]'),
+                 ('property', 'result is None')],
+        raises={'FailedParse': [f'not out_ok(self.exp, {FRESH})', SAME]}, propagates=[GROW])
+
+    # ------------------------------------------------------------------ naming nodes (docs/ast.rst)
+    Nm = 'tatsu/peg/named.py'
+    OUTF = f'out_frame(self.exp, {OTOP})'
+
+    def bound(key, combine):
+        return (f'{STK} == {OSTK}[:-1] + [spec_with_ast({OUTF}, dict_with({OUTF}.ast, uf_safekey({key}), '
+                f'{combine}(dict_get({OUTF}.ast, uf_safekey({key})), out_ret(self.exp, {OTOP}))))]')
+
+    fails = {'FailedParse': [f'not out_ok(self.exp, {OTOP})', f'{STK} == {OSTK}[:-1] + [out_fail_frame(self.exp, {OTOP})]']}
+    contract(reg, f'{Nm}:Named._parse', ALL, {'self': 'opaque:Model', 'ctx': 'Ctx'}, ret='Val', requires=REQ,
+             ensures=[('property', f'out_ok(self.exp, {OTOP})'), ('property', bound('self.name', 'spec_cstadd')),
+                      ('property', f'result == out_ret(self.exp, {OTOP})')],
+             raises=fails, propagates=[GROW])
+    contract(reg, f'{Nm}:NamedList._parse', ALL, {'self': 'opaque:Model', 'ctx': 'Ctx'}, ret='Val', requires=REQ,
+             ensures=[('property', f'out_ok(self.exp, {OTOP})'), ('property', bound('self.name', 'spec_cstaddlist')),
+                      ('property', f'result == out_ret(self.exp, {OTOP})')],
+             raises=fails, propagates=[GROW])
+    contract(reg, f'{Nm}:Override._parse', ALL, {'self': 'opaque:Model', 'ctx': 'Ctx'}, ret='Val', requires=REQ,
+             ensures=[('property', f'out_ok(self.exp, {OTOP})'), ('property', bound("'__vallue__'", 'spec_cstadd')),
+                      ('property', f"result == {{'__vallue__': out_ret(self.exp, {OTOP})}}")],
+             raises=fails, propagates=[GROW])
+
+    # ------------------------------------------------------------------ ordered choice with cut (docs/syntax.rst)
+    Ch = 'tatsu/peg/choice.py'
+    OPTF = f'spec_with_ast(spec_fresh({OTOP}), uf_defined_by({OTOP}.ast, self.options[{{j}}]))'
+    BODYJ = 'spec_option_body(self.options[{j}])'
+    tried = f'all(not out_ok({BODYJ}, {OPTF}) and not out_cut({BODYJ}, {OPTF}) for j in range(0, {{n}}))'.replace('{j}', 'j')
+    contract(
+        reg, f'{Ch}:Choice._parse', ALL, {'self': 'opaque:Model', 'ctx': 'Ctx'}, ret='Val', requires=REQ,
+        ghost={'k': 'int'},
+        invariants={0: [f'{STK} == {OSTK}', tried.replace('{n}', '__i0')]},
+        ensures=[('property',
+                  f'any(({tried.replace("{n}", "k")}) and out_ok({BODYJ.replace("{j}", "k")}, {OPTF.replace("{j}", "k")}) and '
+                  f'{STK} == {OSTK}[:-1] + [spec_merged({OTOP}, out_frame({BODYJ.replace("{j}", "k")}, {OPTF.replace("{j}", "k")}))] and '
+                  f'result == out_ret({BODYJ.replace("{j}", "k")}, {OPTF.replace("{j}", "k")}) for k in range(0, len(self.options)))')],
+        raises={'FailedParse': [
+            SAME,
+            f'({tried.replace("{n}", "len(self.options)")}) or any(({tried.replace("{n}", "k")}) and '
+            f'not out_ok({BODYJ.replace("{j}", "k")}, {OPTF.replace("{j}", "k")}) and out_cut({BODYJ.replace("{j}", "k")}, {OPTF.replace("{j}", "k")}) '
+            f'for k in range(0, len(self.options)))']},
+        propagates=[GROW])
